@@ -53,6 +53,16 @@ static tensor *rd_tensor(void)
 }
 static matrix *dup_matrix(matrix *a){ matrix *m; size_t i, j; NewMatrix(&m, a->row, a->col); for(i = 0; i < a->row; i++) for(j = 0; j < a->col; j++) m->data[i][j] = a->data[i][j]; return m; }
 static dvector *dup_dvector(dvector *a){ dvector *v; size_t i; NewDVector(&v, a->size); for(i = 0; i < a->size; i++) v->data[i] = a->data[i]; return v; }
+/* ---- output objects that already hold something: a routine that RETURNS a result in an output object must give the
+ * same result whatever the object held before (same call repeated into the object, or the object filled with junk) */
+static int same_d(double a, double b){ return (a == b) || (a != a && b != b); }
+static int same_m(matrix *a, matrix *b){ size_t i, j; if(a->row != b->row || a->col != b->col) return 0; for(i = 0; i < a->row; i++) for(j = 0; j < a->col; j++) if(!same_d(a->data[i][j], b->data[i][j])) return 0; return 1; }
+static int same_v(dvector *a, dvector *b){ size_t i; if(a->size != b->size) return 0; for(i = 0; i < a->size; i++) if(!same_d(a->data[i], b->data[i])) return 0; return 1; }
+static int same_u(uivector *a, uivector *b){ size_t i; if(a->size != b->size) return 0; for(i = 0; i < a->size; i++) if(a->data[i] != b->data[i]) return 0; return 1; }
+static void junk_m(matrix *m){ size_t i, j; for(i = 0; i < m->row; i++) for(j = 0; j < m->col; j++) m->data[i][j] = 1000.0 + 7.0*(double)i - 3.0*(double)j; }
+static void junk_v(dvector *v){ size_t i; for(i = 0; i < v->size; i++) v->data[i] = -500.0 + 11.0*(double)i; }
+static long reuse_mask;
+#define RB(bit, ok) do{ if(!(ok)) reuse_mask |= (1L << (bit)); }while(0)
 static void pr_f(double x){ if(x != x) printf(" nan"); else if(isinf(x)) printf(x > 0 ? " inf" : " -inf"); else printf(" %a", x); }
 static void pr_double(const char *name, double x){ printf("= %s D", name); pr_f(x); printf("\n"); }
 static void pr_long(const char *name, long x){ printf("= %s I %ld\n", name, x); }
